@@ -1,4 +1,5 @@
 import MjProof.Lemmas.Constraint
+import MjProof.Lemmas.FwdConstraint
 /-
 C11  Constraint forces are admissible.
 
@@ -134,5 +135,92 @@ theorem decodePyramid_in_pyramid (pyr mu : List ℝ) (dim : ℕ) (h2 : 2 ≤ dim
 /-- `dim = 1` (frictionless): the force is the single edge. -/
 theorem decodePyramid_dim1 (p : ℝ) (rest mu : List ℝ) : decodePyramid (p :: rest) mu 1 = some [p] := by
   simp [decodePyramid]
+
+/-! ### `qfrc_constraint = J' efc_force` after every call, whatever the mjData held before
+
+`mj_fwdConstraint` as the statement list `FwdConstraint.mjFwdConstraint` (tied to the C text of the tree by
+translate/c11_fwdskel.py on every run).  The state `s` at entry is universally quantified: `qfrc_constraint`,
+`ifrc_constraint`, `efc_force`, `iefc_force` may hold anything (the leftovers of any earlier call on the same
+mjData: constraints that have since disappeared, another solver, other flags). -/
+section FwdConstraint
+open MjProof.FwdConstraint
+variable {φ α : Type}
+
+/-- `efc_force` at the end of a call that starts with `f0` in `efc_force`: untouched when there are no
+    rows (the array is empty), otherwise warm start → solver (islands or monolithic) → optional noslip. -/
+def finalForce (L : Leaves φ α) (e : Env) (f0 : φ) : φ :=
+  if e.noRows then f0 else
+    let f1 := if e.islands then L.isl e.solver L.warm else L.mono e.solver L.warm
+    if e.noslip then L.noslip f1 else f1
+
+/-- Full specification of one call on the tracked arrays, for any content `s` at entry. -/
+theorem fwdConstraint_spec (L : Leaves φ α) (e : Env) (s : St φ α) (h : L.WF e) :
+    ∃ s', exec L e mjFwdConstraint s = some s' ∧ s'.force = finalForce L e s.force ∧
+      s'.qfrc = L.jtf s'.force := by
+  obtain ⟨nr, isl, sol, ns⟩ := e
+  cases nr
+  · cases isl
+    · cases sol <;> cases ns <;>
+        simp [exec, run, step, mjFwdConstraint, G.holds, Prim.eff, Arr.tracked, finalForce]
+    · cases sol
+      · cases ns <;> simp [exec, run, step, mjFwdConstraint, G.holds, Prim.eff, Arr.tracked, finalForce]
+      · obtain ⟨v, w, hv, hw, hs⟩ := island_roundtrip L _ h rfl L.warm (L.isl .cg L.warm)
+        cases ns <;>
+          simp [exec, run, step, mjFwdConstraint, G.holds, Prim.eff, Arr.tracked, finalForce, hv, hw, hs]
+      · obtain ⟨v, w, hv, hw, hs⟩ := island_roundtrip L _ h rfl L.warm (L.isl .newton L.warm)
+        cases ns <;>
+          simp [exec, run, step, mjFwdConstraint, G.holds, Prim.eff, Arr.tracked, finalForce, hv, hw, hs]
+  · have he := h.empty rfl
+    cases isl <;> cases sol <;> cases ns <;>
+      simp [exec, run, step, mjFwdConstraint, G.holds, Prim.eff, Arr.tracked, finalForce, he]
+
+/-- Every call returns (for a valid solver) with `qfrc_constraint = J' efc_force`: for each of
+    nefc = 0 / > 0, islands or monolithic, PGS / CG / Newton, with or without the noslip pass. -/
+theorem fwdConstraint_qfrc_eq_JTf (L : Leaves φ α) (e : Env) (s : St φ α) (h : L.WF e) :
+    ∃ s', exec L e mjFwdConstraint s = some s' ∧ s'.qfrc = L.jtf s'.force := by
+  obtain ⟨s', h1, _, h3⟩ := fwdConstraint_spec L e s h
+  exact ⟨s', h1, h3⟩
+
+/-- The result does not depend on what the tracked arrays held at entry (history independence):
+    two calls in the same configuration from any two contents end with the same `qfrc_constraint`
+    and, when there are constraint rows, the same `efc_force`. -/
+theorem fwdConstraint_history_independent (L : Leaves φ α) (e : Env) (s₁ s₂ : St φ α) (h : L.WF e) :
+    ∃ r₁ r₂, exec L e mjFwdConstraint s₁ = some r₁ ∧ exec L e mjFwdConstraint s₂ = some r₂ ∧
+      r₁.qfrc = r₂.qfrc ∧ (e.noRows = false → r₁.force = r₂.force) := by
+  obtain ⟨r₁, h1, f1, q1⟩ := fwdConstraint_spec L e s₁ h
+  obtain ⟨r₂, h2, f2, q2⟩ := fwdConstraint_spec L e s₂ h
+  refine ⟨r₁, r₂, h1, h2, ?_, ?_⟩
+  · cases hn : e.noRows
+    · rw [q1, q2, f1, f2]; simp [finalForce, hn]
+    · rw [q1, q2, h.empty hn, h.empty hn]
+  · intro hn
+    rw [f1, f2]; simp [finalForce, hn]
+
+/-- `mj_dualFinish` is its body: the wrapper calls the static `dualFinish`, whose first statement is
+    `mj_mulJacTVec(m, d, d->qfrc_constraint, d->efc_force)` and whose other statements do not write a
+    tracked array — the leaf semantics used for the call in `mjFwdConstraint`. -/
+theorem dualFinish_refines (L : Leaves φ α) (e : Env) (s : St φ α) :
+    exec L e mjDualFinishBody s = Prim.dualFinish.eff L e s ∧
+    exec L e dualFinishBody s = Prim.dualFinishStatic.eff L e s := by
+  constructor <;> simp [exec, run, step, mjDualFinishBody, dualFinishBody, Prim.eff, Arr.tracked]
+
+/-- `mj_constraintUpdate` (last step of every primal iteration and of the warm start) leaves
+    `qfrc_constraint = J' efc_force` for the force it has just written. -/
+theorem constraintUpdate_qfrc_eq_JTf (L : Leaves φ α) (e : Env) (s : St φ α) :
+    ∃ s', exec L e mjConstraintUpdate s = some s' ∧ s'.force = L.upd ∧ s'.qfrc = L.jtf s'.force := by
+  simp [exec, run, step, mjConstraintUpdate, Prim.eff]
+
+/-- the hypotheses are satisfiable with non-trivial data: nv = 3, one island over dofs 0 and 2,
+    `J' f = (f, 0, 2 f)`; the island / CG run from stale content returns `J' f` of the final force. -/
+example : ∃ (L : Leaves Int Int), L.WF ⟨false, true, .cg, false⟩ ∧
+    (exec L ⟨false, true, .cg, false⟩ mjFwdConstraint ⟨[7, 7, 7], [9, 9], 5, 5⟩).map (·.qfrc) = some [4, 0, 8] := by
+  refine ⟨{ z := 0, nv := 3, map := [0, 2], jtf := fun f => [f, 0, 2 * f], warm := 1, mono := fun _ f => f,
+            isl := fun _ f => f + 3, noslip := id, upd := 0 }, ⟨by simp, by simp, ?_, by simp⟩, by decide⟩
+  intro _ f k hk hlt
+  simp at hk hlt
+  have : k = 1 := by omega
+  subst this; rfl
+
+end FwdConstraint
 
 end MjProof.C11
